@@ -392,7 +392,10 @@ def fault_study(ctx, oracle):
     cases = [{'seed': '%d:fault:%d' % (ctx.seed, i), 'nev': 50, 'profile': 'fault',
               'nalg': 6 if i % 3 else 8, 'shape': 'fan' if i % 2 else 'random'} for i in range(n)]
     cases.insert(0, {'seed': 'fault-directed', 'nev': 0, 'events': [
-        ['reg', 1, 0, True], ['org', [0], None, [1]], ['tickf'], ['tick'], ['tick']], 'nalg': 3})
+        ['reg', 1, 0, True], ['org', [0], None, [1]], ['tickf', 1], ['tick'], ['tick']], 'nalg': 3})
+    cases.insert(1, {'seed': 'fault-directed-2', 'nev': 0, 'events': [
+        ['reg', 1, 0, True], ['reg', 2, 1, True], ['org', [0, 1], None, [1, 2]], ['tickf', 2], ['tick'], ['tick']],
+        'nalg': 3})
     out = ctx.harness('drive_sched.py', {'cases': cases})
     nf = 0
     for c, r in zip(cases, out['cases']):
